@@ -271,7 +271,21 @@ def _foreign(G, mu, o, k):
     if k not in ("P", "L", "PL", "PG", "PH"):
         return
     mu.cell("foreign-type")
-    for other in (1, "x", None, (1, 2, 3), G.Vector(1, 2, 3) if k != "VEC" else 3.0, object()):
+    own = []
+    try:
+        if k == "P":
+            own = [(o.x, o.y, o.z), [o.x, o.y, o.z], G.Vector(o.x, o.y, o.z), {"x": o.x, "y": o.y, "z": o.z}]
+        elif k == "L":
+            own = [(o.sv, o.dv), [o.sv, o.dv], o.sv, G.Point(o.sv)]
+        elif k == "PL":
+            own = [(o.p, o.n), [o.p, o.n], o.p, o.n, tuple(o.general_form())]
+        elif k == "PG":
+            own = [tuple(o.points), list(o.points), o.plane, o.points[0]]
+        elif k == "PH":
+            own = [tuple(o.convex_polygons), set(o.point_set), o.convex_polygons[0]]
+    except Exception:
+        own = []
+    for other in [1, "x", None, (1, 2, 3), G.Vector(1, 2, 3) if k != "VEC" else 3.0, object()] + own:
         r, exc, _ = M.call(lambda a, b: a == b, o, other, pure=False)
         if exc is not None:
             mu.fail("%s:foreign-eq-raises-%s" % (k, type(exc).__name__), "%s == %r raised %s" % (gen.NAMES.get(k, k), other, exc))
